@@ -39,7 +39,7 @@ def sample(ptype, ctr, ver, hexy=False):
     if ptype in ("uchar", "char"):
         return str(1 + n % 100)
     if ptype in a2ldoc.INT_BITS:
-        return hex(0x100 + n) if hexy and ptype not in ("int",) else str(100 + n)
+        return hex(0x100 + n) if hexy else str(100 + n)
     if ptype in ("float", "double"):
         return f"{n}.1"        # not exactly representable in binary: f32 and f64 store different values
     items = [i for i in ENUMS[ptype] if in_version(i, ver)]
